@@ -318,7 +318,22 @@ def rule_castmatrix(run):
     c05.rule_back(run)
 
 
-RULES = [rule_reserved, rule_vocabulary, rule_names, rule_templates, rule_choices, rule_sensitivity, rule_buffers, rule_castmatrix]
+def rule_concat_cast(run):
+    from . import c02
+    c02.rule_casts(run)
+
+
+def rule_visit_unconditional(run):
+    from ..rules import roles as _roles
+    _roles.run_unconditional_rule(run, "F-VISIT")
+
+
+def rule_shadow(run):
+    from ..rules import shadow
+    shadow.run_rule(run, "F-SHADOW")
+
+
+RULES = [rule_reserved, rule_vocabulary, rule_names, rule_templates, rule_choices, rule_sensitivity, rule_buffers, rule_castmatrix, rule_concat_cast, rule_visit_unconditional, rule_shadow]
 LEVEL = "other"
 EXPLANATION = (
     "Legality clauses that are properties of the back end's own tables and templates, decided for all designs: the "
